@@ -329,6 +329,10 @@ func init() {
 		ex.runPending()
 		return nil
 	})
+	reg(rtPkg+".Yield", func(ex *exec, fr *frame, fn *ssa.Function, a []value) value {
+		ex.yieldPoint()
+		return nil
+	})
 	reg(rtPkg+".HeldLocks", func(ex *exec, fr *frame, fn *ssa.Function, a []value) value {
 		return len(ex.held)
 	})
@@ -671,6 +675,20 @@ func init() {
 			return false
 		}
 		ex.lockAcquire(fr, a[0].(*value), true)
+		return true
+	})
+	reg("(*sync.RWMutex).TryLock", func(ex *exec, fr *frame, fn *ssa.Function, a []value) value {
+		if ex.findLock(a[0].(*value)) != nil {
+			return false
+		}
+		ex.lockAcquire(fr, a[0].(*value), true)
+		return true
+	})
+	reg("(*sync.RWMutex).TryRLock", func(ex *exec, fr *frame, fn *ssa.Function, a []value) value {
+		if h := ex.findLock(a[0].(*value)); h != nil && h.write {
+			return false
+		}
+		ex.lockAcquire(fr, a[0].(*value), false)
 		return true
 	})
 	reg("(*sync.RWMutex).Lock", func(ex *exec, fr *frame, fn *ssa.Function, a []value) value {
